@@ -1,6 +1,7 @@
 (* C04 — schema evolution: unknown fields are skipped exactly, absent optionals take defaults. Statements only. *)
 From Coq Require Import List NArith ZArith.
-From TarsV Require Import Base.Hex Codec.Wire Codec.Skip Codec.SkipProofs Codec.Prim Codec.GenCodec Codec.Corr Codec.GenProofs.
+From TarsV Require Import Base.Hex Codec.Wire Codec.Skip Codec.SkipProofs Codec.Prim Codec.GenCodec Codec.Corr Codec.GenProofs
+  Codec.RoundTrip Codec.RoundTripProofs.
 Import ListNotations.
 Open Scope N_scope.
 
@@ -11,8 +12,48 @@ Theorem C04_skip_exact : forall w, wf_ok w -> forall d fuel rest,
   skip_field fuel d (ty_of w) (ser_body w ++ rest) = (SOk, rest).
 Proof. exact SkipProofs.skip_exact. Qed.
 
-(* absent optional member, fresh or reused target: members that declare a default are reset to it whatever the target held *)
-Theorem C04_declared_default_partial : forall f e sid vs i fd d,
+(* decoder level, every wf_schema environment, every struct type with a finite type graph, every well-typed
+   value: a group of well-formed unknown fields (any wire type, nesting, length; tags strictly between the
+   neighbouring member tags) in front of every member and after the last member changes neither the decoded
+   value nor success (same result as the clean encoding), and the cursor stops in front of the trailing ones *)
+Theorem C04_extras_ignored : forall e k n sid vs Js Jl,
+  wf_schema k e -> (S k <= 64)%nat -> tfin n e (TStruct sid) = true -> (tneed n e (TStruct sid) + k <= 64)%nat ->
+  has_type e (TStruct sid) (VStruct vs) ->
+  junks_ok None (fields_of e sid) Js -> trailing_ok (fields_of e sid) Jl ->
+  decode e sid (encx_fields e vs (fields_of e sid) Js ++ ser_fields Jl) = DOk (norm_struct e sid (VStruct vs)) (ser_fields Jl)
+  /\ decode e sid (encode e sid (VStruct vs)) = DOk (norm_struct e sid (VStruct vs)) [].
+Proof. exact RoundTripProofs.extras_ignored. Qed.
+
+(* the same into any admissible (also reused-but-reset) target, explicit fuel condition, any struct type *)
+Theorem C04_extras_ignored_into : forall e k sid vs prior Js tail,
+  wf_schema k e -> has_type e (TStruct sid) (VStruct vs) -> zlike e (TStruct sid) prior ->
+  junks_ok None (fields_of e sid) Js ->
+  (forall fd, In fd (fields_of e sid) -> follows (ftag fd) tail) ->
+  (need_list vs + k + 3 <= 2 * length (encx_fields e vs (fields_of e sid) Js ++ tail) + 64)%nat ->
+  decode_into e sid prior (encx_fields e vs (fields_of e sid) Js ++ tail) = DOk (norm_struct e sid (VStruct vs)) tail.
+Proof. exact RoundTripProofs.decode_into_extras. Qed.
+
+(* an absent required member is an error: member level (any type, behind any unknown fields) ... *)
+Theorem C04_member_absent_required : forall e f tag t prior lo J rest, junk_ok lo tag J -> follows tag rest ->
+  (2 * length (ser_fields J ++ rest) + 3 <= f)%nat ->
+  dec_var (S f) e tag true t prior (ser_fields J ++ rest) = DErr.
+Proof. exact RoundTripProofs.member_absent_required. Qed.
+(* ... and struct level: an input written without a member that the reader's schema requires is rejected *)
+Theorem C04_required_absent : forall e k n sid fds1 fd fds2 vs1 vs2,
+  wf_schema k e -> (S k <= 64)%nat -> fields_of e sid = fds1 ++ fd :: fds2 -> freq fd = true ->
+  Forall2 (fun fd x => has_type e (fty fd) x) fds1 vs1 -> Forall2 (fun fd x => has_type e (fty fd) x) fds2 vs2 ->
+  tfin n e (TStruct sid) = true -> (tneed n e (TStruct sid) + k <= 64)%nat ->
+  decode e sid (enc_fields e vs1 fds1 ++ enc_fields e vs2 fds2) = DErr.
+Proof. exact RoundTripProofs.required_absent. Qed.
+
+(* an absent optional member keeps the target's value and consumes nothing; after ResetDefault the target
+   holds the declared default where one is declared (next theorem), the zero value in a fresh target *)
+Theorem C04_member_absent_optional : forall e f tag t prior lo J rest, junk_ok lo tag J -> follows tag rest ->
+  (match t with TStruct _ => False | _ => True end) ->
+  (2 * length (ser_fields J ++ rest) + 3 <= f)%nat ->
+  dec_var (S f) e tag false t prior (ser_fields J ++ rest) = DOk prior rest.
+Proof. exact RoundTripProofs.member_absent_optional. Qed.
+Theorem C04_declared_default : forall f e sid vs i fd d,
   nth_error (fields_of e sid) i = Some fd -> fdef fd = Some d -> (i < length vs)%nat ->
   match reset_default (S f) e sid (VStruct vs) with
   | VStruct l => nth_error l i = Some d
@@ -29,14 +70,21 @@ Theorem C04_reuse_refuted :
   = DOk (VStruct [VInt 5; VStr [98; 111; 111; 109]]) [].
 Proof. exact GenProofs.reuse_refuted_witness. Qed.
 
-(* full statements, decided on every run by the correspondence + monitors (unknown fields inserted at every
-   admissible position change nothing; absent required member is an error) *)
-Definition C04_extras_ignored_statement : Prop :=
-  forall (e : env) (sid : nat) (clean extended : list N) v,
-    wf_env e = true -> decode e sid clean = DOk v [] ->
-    (* [extended] = [clean] with well-formed fields of unknown tags merged in tag order *) True ->
+(* full statement of the first clause, kept visible: unknown fields also INSIDE nested struct values (between
+   the members of a struct-typed member, vector element or map value). Proved above for the top-level member
+   sequence; inside nested values it rests on skip_exact + the checked correspondence (the harness inserts
+   unknown fields inside nested structs on every run). *)
+Definition C04_extras_nested_statement : Prop :=
+  forall (e : env) (k : nat) (sid : nat) (clean extended : list N) v,
+    wf_schema k e -> decode e sid clean = DOk v [] ->
+    (* [extended] = [clean] with well-formed unknown fields merged in tag order at any struct level *) True ->
     decode e sid extended = DOk v [].
 
 Print Assumptions C04_skip_exact.
-Print Assumptions C04_declared_default_partial.
+Print Assumptions C04_extras_ignored.
+Print Assumptions C04_extras_ignored_into.
+Print Assumptions C04_member_absent_required.
+Print Assumptions C04_required_absent.
+Print Assumptions C04_member_absent_optional.
+Print Assumptions C04_declared_default.
 Print Assumptions C04_reuse_refuted.
